@@ -3,8 +3,17 @@
     Verify(pk, m, sig): P = lift_x(int(pk)) (fail if none); r = int(sig[0:32]) (fail if r ≥ p);
       s = int(sig[32:64]) (fail if s ≥ n); e = int(hash_challenge(bytes(r) ‖ bytes(P) ‖ m)) mod n;
       R = s·G − e·P; fail if R is infinite, y(R) is odd or x(R) ≠ r.
-  pk must be 32 bytes and sig 64 bytes. −e·P is written ((n−e) mod n)·P and the sum P-term first
-  (same group element; see the remark in Spec/Ecdsa.lean).
+  pk must be 32 bytes and sig 64 bytes; the message may have any length.
+
+  TWO forms are given. `verify` writes −e·P as ((n−e) mod n)·P with the P-term first — the shape of the
+  Go code (`XYZ.ECmult` with the scalar n − e). `verifyText` writes the BIP's own step "R = s·G − e·P"
+  with the point e·P NEGATED. The order of the summands is immaterial (commutativity is part of the
+  proved group law). The scalar is NOT: ((n−e) mod n)·P = −(e·P) holds for a point P with n·P = ∞, i.e.
+  for every P once one knows #E(F_p) = n — the point count that this development does NOT prove
+  (see `recover_verifies_partial`). So: model = `verify` is proved unconditionally
+  (`Props.C03.schnorr_accept_iff`); `verify` = `verifyText` is proved for keys whose lifted point has
+  order dividing n (`Props.C03.schnorr_accept_text_partial`; a kernel evaluation for any concrete key).
+  The harness's math/big reference uses the `verifyText` form, and the oracle evaluates both.
 -/
 import GocoinV.Base.C03_Hmac
 import GocoinV.Base.Secp
@@ -28,7 +37,26 @@ def verify (H : Hash) (pk sig msg : Bytes) : Bool :=
         | none => false
         | some (x, y) => y % 2 == 0 && x == r
 
-/-- BIP340 default signing Sign(sk, m, a) (with the recommended final verification). -/
+/-- BIP340 Verify with the step "R = s·G − e·P" written as in the BIP text: s·G plus the NEGATION of the
+    point e·P. -/
+def verifyText (H : Hash) (pk sig msg : Bytes) : Bool :=
+  if pk.length ≠ 32 ∨ sig.length ≠ 64 then false
+  else match liftX (beVal pk) with
+    | none => false
+    | some P =>
+      let r := beVal (sig.take 32)
+      let s := beVal (sig.drop 32)
+      if r ≥ p ∨ s ≥ n then false
+      else
+        let e := challenge H (sig.take 32) pk msg
+        match add (mul s G) (neg (mul e (some P))) with
+        | none => false
+        | some (x, y) => y % 2 == 0 && x == r
+
+/-- BIP340 default signing Sign(sk, m, a) (with the recommended final verification). The secret key is
+    a 32-byte array in the BIP; `sign` reads any byte string as an integer — the model theorem
+    `bip340_sign_matches_partial` is stated for 32-byte keys only, and for every other length the code
+    returns nil (`schnorr_sign_key_length`). -/
 def sign (H : Hash) (msg sk aux : Bytes) : Option Bytes :=
   let d' := beVal sk
   if d' = 0 ∨ d' ≥ n then none
